@@ -974,6 +974,16 @@ def _handle_upload_pack_head(
     if protocol_version != 2:
         proto.write_pkt_line(None)
 
+    deepening = bool(
+        depth not in (0, None) or shallow_since is not None or shallow_exclude
+    )
+    shallow_updates: tuple[set[ObjectID], set[ObjectID]] | None = None
+    if deepening and protocol_version != 2 and can_read is not None:
+        # In protocol v0/v1 the server sends the shallow-update section as
+        # soon as it has read the request, before the negotiation. Read it
+        # here: the ACK polling below would otherwise consume its lines.
+        shallow_updates = _read_shallow_updates(proto.read_pkt_seq())
+
     have = next(graph_walker)
     in_vain = 0
     got_ack = False
@@ -1006,8 +1016,10 @@ def _handle_upload_pack_head(
     if protocol_version == 2:
         proto.write_pkt_line(None)
 
-    if depth not in (0, None) or shallow_since is not None or shallow_exclude:
-        if can_read is not None:
+    if deepening:
+        if shallow_updates is not None:
+            (new_shallow, new_unshallow) = shallow_updates
+        elif can_read is not None:
             (new_shallow, new_unshallow) = _read_shallow_updates(proto.read_pkt_seq())
         else:
             new_shallow = None
